@@ -145,7 +145,7 @@ def LEFT(text, num_chars=1):
 def RIGHT(text, num_chars=1):
     if num_chars < 0 or not isinstance(text, string_types):
         return error.VALUE
-    return text[-num_chars:]
+    return text[max(len(text) - num_chars, 0):]  # text[-0:] would be the whole text
 
 
 @dispatcher.register_for('MID', 'MIDB')
